@@ -78,7 +78,12 @@ type chainOp struct {
 	desc    string
 	mustErr bool // curated unambiguous misuse: an error is required when the frame was healthy
 	run     func(qf qframe.QFrame) qframe.QFrame
+	// filteredApply marks FilteredApply steps: they are not run on a frame that has rows but no column
+	// (open known finding C10/filteredapply-on-columnless-frame)
+	filteredApply bool
 }
+
+const sigColumnless = "C10/filteredapply-on-columnless-frame"
 
 func uniqNames(in []string) []string {
 	seen := map[string]bool{}
@@ -218,7 +223,7 @@ func genChainOp(t *rapid.T, healthyPossible bool) chainOp {
 		}
 		if rapid.IntRange(0, 2).Draw(t, "filtered") == 0 {
 			cl, cd := genHostileFilterClause(t, 1)
-			return chainOp{desc: "FilteredApply(" + cd + "; " + strings.Join(ds, "; ") + ")",
+			return chainOp{desc: "FilteredApply(" + cd + "; " + strings.Join(ds, "; ") + ")", filteredApply: true,
 				run: func(qf qframe.QFrame) qframe.QFrame { return qf.FilteredApply(cl, ins...) }}
 		}
 		return chainOp{desc: "Apply(" + strings.Join(ds, "; ") + ")", run: func(qf qframe.QFrame) qframe.QFrame { return qf.Apply(ins...) }}
@@ -568,6 +573,11 @@ func TestC10(t *testing.T) {
 		for i, o := range ops {
 			before := callbacks()
 			prev := qf
+			if o.filteredApply && prev.Err == nil && len(prev.ColumnNames()) == 0 && prev.Len() > 0 {
+				// exactly the call shape of the open finding: excluded by construction, counted
+				evC10.Known(sigColumnless)
+				continue
+			}
 			var res qframe.QFrame
 			if perr := hx.Safely(func() { res = o.run(prev) }); perr != nil {
 				t.Fatalf("step %d (%s) panicked: %v\n%s", i, o.desc, perr, desc())
